@@ -806,10 +806,15 @@ func TestVerifC18(t *testing.T) {
 					}
 					if r.Chance(0.65) { // with answers; otherwise NODATA / NXDOMAIN shape
 						ttl := []uint32{0, 1, 2, 30, 600, 31536000, 31536001, 4000000000}[r.Intn(8)]
-						ttlTok = strconv.FormatUint(uint64(ttl), 10)
+						ttl2 := []uint32{7, 7, 0, 600, 4000000000, 31536001}[r.Intn(6)]
+						// every answer TTL goes to the model: the entry lives as long as its shortest-lived record
+						ttlTok = strconv.FormatUint(uint64(ttl), 10) + "," + strconv.FormatUint(uint64(ttl2), 10)
+						if ttl2 < ttl {
+							stats.Inc("op.dnsresp.later-record-shorter")
+						}
 						msg.Answer = []dnsmessage.RR{
 							&dnsmessage.A{Hdr: dnsmessage.RR_Header{Name: qname, Rrtype: dnsmessage.TypeA, Class: dnsmessage.ClassINET, Ttl: ttl}, A: net.IPv4(93, 184, 216, 34)},
-							&dnsmessage.A{Hdr: dnsmessage.RR_Header{Name: qname, Rrtype: dnsmessage.TypeA, Class: dnsmessage.ClassINET, Ttl: 7}, A: net.IPv4(93, 184, 216, 35)},
+							&dnsmessage.A{Hdr: dnsmessage.RR_Header{Name: qname, Rrtype: dnsmessage.TypeA, Class: dnsmessage.ClassINET, Ttl: ttl2}, A: net.IPv4(93, 184, 216, 35)},
 						}
 					}
 					key := ""
@@ -850,6 +855,11 @@ func TestVerifC18(t *testing.T) {
 							usedKey = w.ctrl.cacheKey(strings.ToLower(qname), qtype)
 						}
 						keys = append(keys, usedKey)
+						// implementation-side oracle (no model): a response cached through the production key
+						// shape is a resolution of ITS OWN (name, type): its knowledge entry exists right away
+						if _, known := w.ctrl.dnsKnowledge.Load(w.ctrl.cacheKey(qname, qtype)); !known {
+							return "ok ORACLE:a-cached-response-left-no-knowledge-for-its-own-name"
+						}
 						return "ok"
 					}))
 				case c < -1: // family removal (DNS answer rejected by response routing)
